@@ -36,6 +36,44 @@ ASSUMPTIONS = [
 FORMERR = 1
 
 
+def _tsig_index_ranges(hm):
+    """End expressions of the `0..end` ranges whose loop index is compared with ARCOUNT (the TSIG-is-last test)."""
+    from qv import origins
+    out = []
+    cmps = [(b, i, st) for b, bl in enumerate(hm.blocks) if not bl['cleanup'] for i, st in enumerate(bl['stmts'])
+            if st['k'] == 'assign' and st['rv']['k'] == 'bin' and st['rv']['op'] in ('Ne', 'Eq') and not st['lhs']['p']]
+    for b, i_, st_ in cmps:
+        sd = (b, i_, 'assign', st_)
+        txt = '%s,%s' % (paths.show_operand(hm, st_['rv']['a']), paths.show_operand(hm, st_['rv']['b']))
+        if 'Reader::arcount(' not in txt or 'range::next(' not in txt:
+            continue
+        for o in (sd[3]['rv']['a'], sd[3]['rv']['b']):
+            if not is_place(o):
+                continue
+            # through `index + 1` if need be
+            cands = [o]
+            d2 = hm.single_def(o['pl']['l']) if not o['pl']['p'] else None
+            if d2 and d2[2] == 'assign' and d2[3]['rv']['k'] == 'use' and is_place(d2[3]['rv']['op']) and d2[3]['rv']['op']['pl']['p']:
+                d3 = hm.single_def(d2[3]['rv']['op']['pl']['l'])
+                if d3 and d3[2] == 'assign' and d3[3]['rv']['k'] == 'bin':
+                    cands = [d3[3]['rv']['a'], d3[3]['rv']['b']]
+            elif d2 and d2[2] == 'assign' and d2[3]['rv']['k'] == 'bin':
+                cands = [d2[3]['rv']['a'], d2[3]['rv']['b']]
+            for c in cands:
+                if not is_place(c):
+                    continue
+                for lf in origins.trace(hm, c['pl']['l'], origins.norm_path(c['pl']['p']), at=(b, 0)):
+                    if lf[0] == 'call' and callee_name(lf[2]).endswith('::next') and 'Range' in callee_name(lf[2]):
+                        it = lf[2]['args'][0]
+                        base = hm.canon({'l': it['pl']['l'], 'p': it['pl']['p'] + ['deref'], 'ty': ''}) if is_place(it) else None
+                        d4 = hm.single_def(base['l']) if base and not base['p'] else None
+                        if d4 and d4[2] == 'call' and is_place(d4[3]['args'][0]):
+                            d5 = hm.single_def(d4[3]['args'][0]['pl']['l'])
+                            if d5 and d5[2] == 'assign' and d5[3]['rv']['k'] == 'agg' and len(d5[3]['rv']['ops']) == 2:
+                                out.append(paths.show_operand(hm, d5[3]['rv']['ops'][1]))
+    return out
+
+
 def check(R, F):
     fns = server_fns(F)
     hm = F.fn(HMWC)
@@ -131,6 +169,11 @@ def check(R, F):
         R.require(len(hits) >= n, 'formerr-arm', '%s|%s' % (fp, name), fn.where(hits[0][1]) if hits else fn.where(),
                   '%d set_rcode(FORMERR) site(s) directly controlled by the %s condition' % (len(hits), name),
                   'no set_rcode(FORMERR) call is controlled by the %s condition (expected %d): that malformed input is no longer answered with FORMERR' % (name, n))
+    # the index in the TSIG-is-last test counts the records of the ADDITIONAL section: it is produced by a loop over
+    # 0..ARCOUNT (not over the whole message)
+    ends = _tsig_index_ranges(hm)
+    R.require(bool(ends) and all(e == 'cast(Reader::arcount(arg2.received))' for e in ends), 'formerr-arm', HMWC + '|tsig-index-counts-additional', hm.where(),
+              'the TSIG position is compared with an index that runs over 0..ARCOUNT', 'the index compared with ARCOUNT in the TSIG-is-last test runs over 0..%s, not over the additional section' % ends)
     # the OPT owner check: validate_opt returns ExtendedRcode::FORMERR under !is_root
     vo = F.fn('server::validate_opt')
     found = False
